@@ -378,9 +378,17 @@ class WorkerPool:
                         if i in self.hung:
                             self.hung.discard(i)
                             self.hangs = getattr(self, "hangs", 0) + 1
+                            synth = {"ok": False, "fatal": True, "hang": True, "step": -1,
+                                     "viol": ["the code under test did not return within %d s while executing this scenario (endless loop)" % self.request_timeout]}
+                            try:
+                                side = os.path.join(self.ctx.scratch, "w%d-%s" % (i, os.path.basename(self.binary)), "sidecar.json")
+                                if os.path.exists(side):
+                                    synth.update(json.load(open(side)))
+                                    os.remove(side)
+                            except Exception:
+                                pass
                             with lock:
-                                on_result(culprit, {"ok": False, "fatal": True, "hang": True, "step": -1,
-                                                    "viol": ["the code under test did not return within %d s while executing this scenario (endless loop)" % self.request_timeout]})
+                                on_result(culprit, synth)
                             todo = todo[done + 1:]
                             self.procs[i] = self._spawn(i)
                             if self.hangs >= 6:
@@ -389,9 +397,17 @@ class WorkerPool:
                             continue
                         if self._died_in_harness(i):
                             raise Undecided("the harness itself crashed (not the code under test): %s" % self._stderr_tail(i))
+                        synth = {"ok": False, "fatal": True, "step": -1,
+                                 "viol": ["the process died with a fatal runtime error while executing this scenario: " + self._stderr_tail(i)]}
+                        try:
+                            side = os.path.join(self.ctx.scratch, "w%d-%s" % (i, os.path.basename(self.binary)), "sidecar.json")
+                            if os.path.exists(side):
+                                synth.update(json.load(open(side)))
+                                os.remove(side)
+                        except Exception:
+                            pass
                         with lock:
-                            on_result(culprit, {"ok": False, "fatal": True, "step": -1,
-                                                "viol": ["the process died with a fatal runtime error while executing this scenario: " + self._stderr_tail(i)]})
+                            on_result(culprit, synth)
                         todo = todo[done + 1:]
                         self.procs[i] = self._spawn(i)
                 except Exception as e:  # noqa
